@@ -3,7 +3,7 @@
    returns the number of records whose raw offset is <= the target, i.e. the
    position just after the LAST record that starts at or before the target. *)
 From V Require Import Base.Prelude XFlate.Index.
-Open Scope Z_scope.
+Local Open Scope Z_scope.
 
 Definition RO (T : list record) (i : Z) : Z := RawOffset (nth_rec T i).
 
